@@ -366,7 +366,7 @@ fn base_graph_for_tables() -> (ModuleGraph, Vec<ModuleSpecifier>) {
 
 pub fn run(tier: &str, seed: u64) -> Report {
   let mut report = Report::new("C14");
-  report.rule = "graphs: (a) built from generated worlds with forced redirect chains of 0..=13 hops and cycles of 1..=6, \
+  report.rule = "graphs: (a) built from generated worlds with forced redirect chains of 0..=13 hops and cycles of 2..=6, \
     (b) every redirect table over 5 specifiers (6^5 functions, incl. onto slots) written into graph.redirects on a real graph; \
     per graph every known specifier is queried (resolve/get/contains/try_get/try_get_prefer_types), specifiers() and every \
     dependency with both type preferences; non-trivial = distinct (chain hops, cyclic, slot-on-source, end kind) classes"
@@ -420,7 +420,7 @@ pub fn run(tier: &str, seed: u64) -> Report {
     let mut cfg = GenCfg::default();
     cfg.chain = Some(wi % 14);
     if wi % 3 == 0 {
-      cfg.cycle = Some(1 + (wi / 3) % 6);
+      cfg.cycle = Some(2 + (wi / 3) % 5);
     }
     if wi % 5 == 4 {
       cfg.remote = false;
